@@ -284,6 +284,7 @@ def main(argv):
 
     known = load_known()
     violations, known_hits, inconclusive = [], [], []
+    nreplayed = 0
     for r in outcomes:
         if r.state == "inconclusive":
             inconclusive.append(r)
@@ -291,7 +292,10 @@ def main(argv):
             continue
         # one report per (harness, location/description); replay each harness once
         rep = None
-        if not args.no_replay:
+        if not args.no_replay and nreplayed < int(os.environ.get("VERIF_MAX_REPLAYS", "2")):
+            # native replay costs ~1-2 min per harness: the first failing harnesses are replayed,
+            # the others are reported with the solver's verdict only
+            nreplayed += 1
             rep = rp.confirm(pid, r, o, metas[r.h.full], workdir)
         for f in dedup(r.failures):
             k = match_known(known, pid, r.h.name, f)
